@@ -58,7 +58,7 @@ theorem loopE : ∀ (fuel : Nat) (s : LState F), Inv s → DInv s →
           cases hk : r.kind with
           | code b =>
             obtain ⟨h1, h2, h3, _⟩ := hrT.2.1 b hk
-            exact ⟨b, by simp [rootBody, hk], h1.1, h2, h3⟩
+            exact ⟨b, by simp [rootBody, hk], h1, h2, h3⟩
           | ref id =>
             obtain ⟨b, hb⟩ := hfound r hr_done id hk
             have hd0 := hrT.2.2 id hk
